@@ -65,6 +65,15 @@ def step (_ : Unit) (toks : List String) (rhs : String) : Unit × Verdict :=
       else if m ≠ rhs then ((), .diff m)
       else ((), .ok)
     | _, _, _ => ((), .bad "vb args")
+  | ["hcv", diff, digest] =>
+    -- end-to-end bit test of `Hashcash.Verify` on an unexpired, well-formed SHA-256 stamp with the expected
+    -- subject: accepted exactly when the stamp hash has at least `difficulty` leading zero bits
+    match diff.toNat?, hexToBytes digest with
+    | some d, some dg =>
+      let want := if decide (d ≤ leadingZeroBits dg) then "accept" else "reject"
+      if rhs ≠ want then ((), .spec s!"Hashcash.Verify: leadingZeroBits={leadingZeroBits dg} difficulty={d} want={want}")
+      else ((), .ok)
+    | _, _ => ((), .bad "hcv args")
   | ["parse", sol] =>
     match hexToBytes sol with
     | some sol =>
